@@ -2,33 +2,33 @@
 From Coq Require Import Ascii String List Bool Arith ZArith NArith Lia.
 From PTBase Require Import Exn PyStr PyNum PyVal Fmt FixedFormat.
 From Gen Require Import GenTables GenSections.
-From P Require Import Comb Obj Fields Idem Sections SectionsB Rec Prog T2DataIO Whole IdemSec IdemSecB IdemMeshm IdemWhole Example.
+From P Require Import Comb Obj Fields Idem Sections SectionsB Rec Prog T2DataIO Whole IdemSec IdemSecB IdemMeshm IdemWhole RealStable Example.
 Import ListNotations.
 Open Scope string_scope.
 
-(** the text of a value read back from its text is its text again: decided by computing both *)
-Definition stableb (f : fspec) (v : value) : bool :=
-  match fmt_field f (cf f v), fmt_field f v with Ok a, Ok b => str_eqb a b | _, _ => false end.
-Lemma stableb_spec f v : stableb f v = true -> stable f v.
+(** the value conditions of a line program: every (field, value) pair of every record is [field_ok]
+    (RealStable.v); [strict]: only the derived cases, no fallback on computing the two texts *)
+Definition item_ok (strict : bool) (it : item) : bool :=
+  match it with Lit _ => true | Rec k vals | RecK k vals => all_field_ok strict (Sections.sp T0 k) vals end.
+Lemma item_ok_spec strict it : item_ok strict it = true -> istable T0 it.
+Proof. destruct it as [l|k vals|k vals]; intro H; [exact I| |]; apply (all_field_ok_stable strict); exact H. Qed.
+Lemma all_field_ok_weaken specs : forall vals, all_field_ok true specs vals = true -> all_field_ok false specs vals = true.
 Proof.
-  unfold stableb, stable. destruct (fmt_field f (cf f v)) as [a|]; [|discriminate]. destruct (fmt_field f v) as [b|]; [|discriminate].
-  intro H. apply str_eqb_eq in H. subst. reflexivity.
+  induction specs as [|f fs IH]; intros [|v vs] H; try reflexivity. cbn [all_field_ok] in *. apply andb_prop in H as [A B].
+  rewrite (strict_field_ok f v A), (IH vs B). reflexivity.
 Qed.
-Fixpoint all_stableb (specs : list fspec) (vals : list value) : bool :=
-  match specs, vals with f :: fs, v :: vs => stableb f v && all_stableb fs vs | _, _ => true end.
-Lemma all_stableb_spec specs : forall vals, all_stableb specs vals = true -> all_stable specs vals.
-Proof.
-  induction specs as [|f fs IH]; intros [|v vs] H; try exact I. cbn in H. apply andb_prop in H as [A B].
-  split; [apply stableb_spec; exact A|apply IH; exact B].
-Qed.
-Definition istableb (it : item) : bool :=
-  match it with Lit _ => true | Rec k vals | RecK k vals => all_stableb (Sections.sp T0 k) vals end.
-Lemma istableb_spec it : istableb it = true -> istable T0 it.
-Proof. destruct it as [l|k vals|k vals]; intro H; [exact I| |]; apply all_stableb_spec; exact H. Qed.
+Lemma item_ok_weaken it : item_ok true it = true -> item_ok false it = true.
+Proof. destruct it as [l|k vals|k vals]; intro H; [reflexivity| |]; apply all_field_ok_weaken; exact H. Qed.
 
 (** every hypothesis of [write_idem] / of [write_fixpoint] *)
-Definition idem_hyps1 (d : t2d) (ks : list string) : bool :=
-  hyps_ok d ks && idem_ok d ks && strs_eqb (update_sections (reread d ks)) (sections (reread d ks)) && forallb istableb (prog_file d ks).
+Definition idem_hyps1_gen (strict : bool) (d : t2d) (ks : list string) : bool :=
+  hyps_ok d ks && idem_ok d ks && strs_eqb (update_sections (reread d ks)) (sections (reread d ks)) && forallb (item_ok strict) (prog_file d ks).
+Definition idem_hyps1 := idem_hyps1_gen false.
+Definition idem_hyps_gen (strict : bool) (d : t2d) (ks : list string) : bool :=
+  idem_hyps1_gen strict d ks &&
+  (let D := reread d ks in
+   title_ok D && chain_ok D ks (start_state D) && idem_ok D ks && strs_eqb (update_sections (reread D ks)) (sections (reread D ks))).
+Definition idem_hyps_strict := idem_hyps_gen true.
 Definition idem_hyps (d : t2d) (ks : list string) : bool :=
   idem_hyps1 d ks &&
   (let D := reread d ks in
@@ -36,25 +36,36 @@ Definition idem_hyps (d : t2d) (ks : list string) : bool :=
 Theorem write_idem_checked d ks : idem_hyps1 d ks = true ->
   exists ls ls', write_lines d = Ok ls /\ write_lines (reread d ks) = Ok ls' /\ Forall2 lpad ls ls'.
 Proof.
-  unfold idem_hyps1. intro H. apply andb_prop in H as [H ST]. apply andb_prop in H as [H US]. apply andb_prop in H as [H0 ID].
+  unfold idem_hyps1, idem_hyps1_gen. intro H. apply andb_prop in H as [H ST]. apply andb_prop in H as [H US]. apply andb_prop in H as [H0 ID].
   destruct (hyps_ok_spec d ks H0) as [ls [W [U [SK [XP [EK [TI CH]]]]]]]. apply strs_eqb_eq in US.
   assert (ST' : Forall (istable T0) (prog_file d ks)).
-  { rewrite forallb_forall in ST. apply Forall_forall. intros it I. apply istableb_spec. apply ST. exact I. }
+  { rewrite forallb_forall in ST. apply Forall_forall. intros it I. apply (item_ok_spec false). apply ST. exact I. }
   destruct (write_idem d ks ls W U SK XP CH ID US ST') as [ls' [W' [F _]]]. exists ls, ls'. auto.
 Qed.
 Theorem write_fixpoint_checked d ks : idem_hyps d ks = true ->
   exists ls ls', write_lines d = Ok ls /\ write_lines (reread d ks) = Ok ls' /\ Forall2 lpad ls ls' /\
     read_lines ls' = Ok (reread (reread d ks) ks) /\ write_lines (reread (reread d ks) ks) = Ok ls'.
 Proof.
-  unfold idem_hyps, idem_hyps1. cbv zeta. intro H. apply andb_prop in H as [H HD].
+  unfold idem_hyps, idem_hyps1, idem_hyps1_gen. cbv zeta. intro H. apply andb_prop in H as [H HD].
   apply andb_prop in H as [H ST]. apply andb_prop in H as [H US]. apply andb_prop in H as [H0 ID].
   apply andb_prop in HD as [HD US2]. apply andb_prop in HD as [HD ID2]. apply andb_prop in HD as [TI2 CH2].
   destruct (hyps_ok_spec d ks H0) as [ls [W [U [SK [XP [EK [TI CH]]]]]]]. apply strs_eqb_eq in US. apply strs_eqb_eq in US2.
   assert (ST' : Forall (istable T0) (prog_file d ks)).
-  { rewrite forallb_forall in ST. apply Forall_forall. intros it I. apply istableb_spec. apply ST. exact I. }
+  { rewrite forallb_forall in ST. apply Forall_forall. intros it I. apply (item_ok_spec false). apply ST. exact I. }
   destruct (write_fixpoint d ks ls W U SK XP CH ID US ST' EK TI2 CH2 ID2 US2) as [ls' [W' [F [R W2]]]].
   exists ls, ls'. auto.
 Qed.
+
+(** the same from the derived value conditions alone *)
+Lemma idem_hyps_strict_weaken d ks : idem_hyps_strict d ks = true -> idem_hyps d ks = true.
+Proof.
+  unfold idem_hyps_strict, idem_hyps_gen, idem_hyps, idem_hyps1, idem_hyps1_gen. intro H. apply andb_prop in H as [H HD]. rewrite HD, andb_true_r.
+  apply andb_prop in H as [H ST]. rewrite H. cbn [andb]. rewrite forallb_forall in *. intros it I. apply item_ok_weaken. apply ST. exact I.
+Qed.
+Theorem write_fixpoint_derived d ks : idem_hyps_strict d ks = true ->
+  exists ls ls', write_lines d = Ok ls /\ write_lines (reread d ks) = Ok ls' /\ Forall2 lpad ls ls' /\
+    read_lines ls' = Ok (reread (reread d ks) ks) /\ write_lines (reread (reread d ks) ks) = Ok ls'.
+Proof. intro H. apply write_fixpoint_checked. apply idem_hyps_strict_weaken. exact H. Qed.
 
 (** every section kind *)
 Lemma idem_covered_all k : In k covered -> In k idem_covered.
@@ -67,4 +78,8 @@ Qed.
 Example example_tough2_idem : idem_hyps example_tough2 example_tough2_order = true.
 Proof. vm_compute. reflexivity. Qed.
 Example example_autough2_idem : idem_hyps example_autough2 example_autough2_order = true.
+Proof. vm_compute. reflexivity. Qed.
+Example example_tough2_idem_strict : idem_hyps_strict example_tough2 example_tough2_order = true.
+Proof. vm_compute. reflexivity. Qed.
+Example example_autough2_idem_strict : idem_hyps_strict example_autough2 example_autough2_order = true.
 Proof. vm_compute. reflexivity. Qed.
